@@ -2160,6 +2160,19 @@ public:
         HandledEnum&    result;
     };
 
+    // puts a deferred event back into the deferred queue (if there is one)
+    template <class Event>
+    HandledEnum keep_deferred_event_helper(Event const& evt, ::boost::mpl::true_ const &)
+    {
+        defer_event(evt);
+        return HANDLED_DEFERRED;
+    }
+    template <class Event>
+    HandledEnum keep_deferred_event_helper(Event const& , ::boost::mpl::false_ const &)
+    {
+        return HANDLED_TRUE;
+    }
+
     // Main function used internally to make transitions
     // Can only be called for internally (for example in an action method) generated events.
     template<class Event>
@@ -2170,6 +2183,12 @@ public:
         if (is_event_handling_blocked_helper<Event>
                 ( ::boost::mpl::bool_<has_fsm_blocking_states<library_sm>::type::value>() ) )
         {
+            // a deferred event which is re-offered while the machine is blocked stays deferred
+            if (EVENT_SOURCE_DEFERRED & source)
+            {
+                return keep_deferred_event_helper(
+                    evt, ::boost::mpl::bool_<has_fsm_deferred_events<library_sm>::type::value>());
+            }
             return HANDLED_TRUE;
         }
 
